@@ -7,7 +7,7 @@ import sys
 import warnings
 
 warnings.simplefilter("ignore")
-sys.path.insert(0, "/repo")
+sys.path.insert(0, os.environ.get("VERIF_REPO", "/repo"))
 sys.path.insert(0, os.path.dirname(os.path.abspath(__file__)))
 import lang_common as LC  # noqa: E402
 
